@@ -6,6 +6,7 @@ import MinterModel.Persist
 import MinterModel.BeginBlock
 import MinterModel.Rules
 import MinterModel.OrdersQ
+import MinterModel.ValidQ
 /-
   Dispatcher over every component's `Q` evaluator.  A component adds one line here.
 -/
@@ -21,5 +22,6 @@ def evalQ (fn : String) (args : List String) : Option String :=
   <|> beginEvalQ fn args
   <|> Rules.rulesEvalQ fn args
   <|> ordersEvalQ fn args
+  <|> validEvalQ fn args
 
 end Minter
